@@ -211,11 +211,19 @@ static void cb_destroyed(qb_ipcs_connection_t *c)
 }
 
 /* ---- random lifecycle actions (C04) ----------------------------------------------- */
-static struct sconn *held[64]; static int nheld;
+static struct sconn *held[64]; static int nheld; static long n_event_on_closed;
 static void release_held(void *data)
 {
 	(void)data;
-	if (nheld > 0) { int i = (int)vp_u(&srng, (uint32_t)nheld); struct sconn *sc = held[i]; held[i] = held[--nheld]; sc->app_refs--; bed_log(L_SRV_NOTE, (uint64_t)(uintptr_t)sc->c, sc->id, 0, 0, 0, "app-unref-later"); qb_ipcs_connection_unref(sc->c); }
+	if (nheld > 0) { int i = (int)vp_u(&srng, (uint32_t)nheld); struct sconn *sc = held[i]; held[i] = held[--nheld];
+		/* the application still holds this connection; if its closed callback has run already an event for it has nowhere
+		 * to go and must be refused (its descriptor number may belong to a newer client by now) */
+		if (sc->lc >= LC_CLOSED && !sc->dead && cfg.type == QB_IPC_SHM) {   /* shm: the wake-up byte would go to the setup socket, which is closed by now; the socket transport keeps its own event socket until the connection is destroyed */
+			struct { struct qb_ipc_response_header h; char pad[16]; } ev; memset(&ev, 0, sizeof ev); ev.h.id = 77; ev.h.size = sizeof ev;
+			ssize_t er = qb_ipcs_event_send(sc->c, &ev, sizeof ev); n_event_on_closed++;
+			if (er >= 0) sviol("ipcs:event-accepted-on-a-closed-connection", sc->c, "rc %zd", er);
+		}
+		sc->app_refs--; bed_log(L_SRV_NOTE, (uint64_t)(uintptr_t)sc->c, sc->id, 0, 0, 0, "app-unref-later"); qb_ipcs_connection_unref(sc->c); }
 }
 static void random_lifecycle_action(struct sconn *sc, const char *where)
 {
